@@ -71,8 +71,9 @@ structure Inv (cfg : Config) (sl : List SLine) (v : Nat) (st : Core) : Prop wher
   llv : st.lastLineVisited = offsetAt sl v
   sunk : st.hasSunk = decide (0 < v)
   deliv : 0 < v → delivered cfg sl (v - 1) = true
-  llc : cfg.lineNumber = true → st.lastLineCounted = offsetAt sl (v - 1)
-  ln : st.lineNumber = lineNo cfg (v - 1)
+  /-- the line counter stands at the start of some decided line `c` (the last one for line-by-line search,
+  the first line of the last block for multi-line search) -/
+  cnt : ∃ c, c ≤ v - 1 ∧ (cfg.lineNumber = true → st.lastLineCounted = offsetAt sl c) ∧ st.lineNumber = lineNo cfg c
   abs : st.absoluteByteOffset = 0
   bin : st.binaryByteOffset = none
   ev : st.events = Event.begin :: (List.range v).flatMap (lineEvents cfg sl)
@@ -168,9 +169,9 @@ theorem sinkOtherContext_allCont {cfg : Config} {buf : Bytes} {st : Core} (r : S
 /-! ### counting lines -/
 
 theorem countLines_spec {t : Nat} {buf : Bytes} {sl : List SLine} {cfg : Config} (L : Layout t buf sl)
-    (ht : cfg.lineTerm.asByte = t) {v j : Nat} {st : Core}
-    (hllc : cfg.lineNumber = true → st.lastLineCounted = offsetAt sl (v - 1))
-    (hln : st.lineNumber = lineNo cfg (v - 1)) (hvj : v ≤ j) (hj : j < sl.length) :
+    (ht : cfg.lineTerm.asByte = t) {c j : Nat} {st : Core}
+    (hllc : cfg.lineNumber = true → st.lastLineCounted = offsetAt sl c)
+    (hln : st.lineNumber = lineNo cfg c) (hvj : c ≤ j) (hj : j < sl.length) :
     countLines cfg buf st (offsetAt sl j)
       = { st with lineNumber := lineNo cfg j
                 , lastLineCounted := if cfg.lineNumber then offsetAt sl j else st.lastLineCounted } := by
@@ -179,18 +180,18 @@ theorem countLines_spec {t : Nat} {buf : Bytes} {sl : List SLine} {cfg : Config}
   · cases st; simp_all [lineNo]
   · have hllc' := hllc hc
     simp only [hln, lineNo, hc, if_true, hllc']
-    by_cases hge : offsetAt sl (v - 1) ≥ offsetAt sl j
-    · have hvj' : ¬ (v - 1 < j) := fun h => by
+    by_cases hge : offsetAt sl c ≥ offsetAt sl j
+    · have hvj' : ¬ (c < j) := fun h => by
         have := L.off_lt h (by omega); omega
-      have h0 : v - 1 = j := by omega
+      have h0 : c = j := by omega
       simp only [hge, if_true]
       cases st
       simp_all [lineNo]
-    · have hlt : v - 1 < j := by
+    · have hlt : c < j := by
         apply Classical.byContradiction; intro h
         exact hge (off_mono sl (by omega))
-      simp only [hge, if_false, ht, L.count_region (v - 1) j (by omega) hj]
-      have : v - 1 + 1 + (j - (v - 1)) = j + 1 := by omega
+      simp only [hge, if_false, ht, L.count_region c j (by omega) hj]
+      have : c + 1 + (j - c) = j + 1 := by omega
       rw [this]
 
 /-! ### delivering one line -/
@@ -201,8 +202,9 @@ theorem deliver_inv {t : Nat} {buf : Bytes} {sl : List SLine} {cfg : Config} (L 
     {k : Kind} (hk : kindAt cfg sl j = some k) (acl : Nat) :
     Inv cfg sl (j + 1) (deliverGen cfg buf (mkOf k) acl
       { st with events := st.events ++ (if breakBefore cfg sl j then [Event.contextBreak] else []) } (span sl j)) := by
+  obtain ⟨c, hcv, hllc, hln⟩ := hI.cnt
   have hcl := countLines_spec (st := { st with events := st.events ++ (if breakBefore cfg sl j then [Event.contextBreak] else []) })
-    L ht hI.llc hI.ln hvj hj
+    L ht hllc hln (by omega) hj
   unfold deliverGen
   simp only [span] at *
   rw [hcl]
@@ -210,8 +212,7 @@ theorem deliver_inv {t : Nat} {buf : Bytes} {sl : List SLine} {cfg : Config} (L 
   · rfl
   · simp
   · intro _; simp [delivered, hk]
-  · intro hc; simp [hc]
-  · simp
+  · exact ⟨j, by simp, fun hc => by simp [hc], by simp⟩
   · exact hI.abs
   · exact hI.bin
   · simp only [hI.abs, Nat.zero_add, L.slice_line j hj]
